@@ -81,9 +81,22 @@ type scenario struct {
 	memoryId  int   // history whose id the follower's channel object carries from an earlier role (0 = none)
 	interrupt int   // the leader's stream fails at its k-th Send (0 = never)
 	appendN   int64 // bytes appended at the leader while the follower is connected
+	retry     bool  // the transport failure happens once; the scenario goes on until the follower's next round is over
+	leader2   cacheSpec // "switch": what the leader caches after its full resynchronisation (history 2)
+	stallAt   int64     // "switch": the follower's link stalls once it holds this many bytes
+	append2   int64     // "switch": bytes of history 2 appended after the follower's link is back
 }
 
-type fakeInput struct{ runIds []string }
+type fakeInput struct {
+	mu     sync.Mutex
+	runIds []string
+}
+
+func (f *fakeInput) set(ids ...string) {
+	f.mu.Lock()
+	f.runIds = ids
+	f.mu.Unlock()
+}
 
 func (f *fakeInput) Id() string                                        { return "verif" }
 func (f *fakeInput) Run() error                                        { return nil }
@@ -91,19 +104,59 @@ func (f *fakeInput) Stop() error                                       { return 
 func (f *fakeInput) SetOutput(syncer.Output)                           {}
 func (f *fakeInput) SetChannel(syncer.Channel)                         {}
 func (f *fakeInput) StateNotify(syncer.SyncState) usync.WaitChannel    { return nil }
-func (f *fakeInput) RunIds() []string                                  { return f.runIds }
+func (f *fakeInput) RunIds() []string {
+	f.mu.Lock()
+	defer f.mu.Unlock()
+	return append([]string{}, f.runIds...)
+}
+
+// gate is the follower's link: while it is shut the leader's data frames do not get through
+type gate struct {
+	mu sync.Mutex
+	ch chan struct{}
+}
+
+func (g *gate) shut() {
+	g.mu.Lock()
+	g.ch = make(chan struct{})
+	g.mu.Unlock()
+}
+func (g *gate) open() {
+	g.mu.Lock()
+	if g.ch != nil {
+		close(g.ch)
+		g.ch = nil
+	}
+	g.mu.Unlock()
+}
+func (g *gate) pass(ctx context.Context) {
+	g.mu.Lock()
+	ch := g.ch
+	g.mu.Unlock()
+	if ch != nil {
+		select {
+		case <-ch:
+		case <-ctx.Done():
+		}
+	}
+}
 
 // failing stream: Send fails from the k-th message on
 type cutStream struct {
 	pb.ApiService_SyncServer
-	n   *atomic.Int32
-	cut int
+	n    *atomic.Int32
+	cut  int
+	once *atomic.Bool // non-nil: the failure happens one time only
+	gate *gate
 }
 
 func (c *cutStream) Send(m *pb.SyncResponse) error {
 	k := int(c.n.Add(1))
-	if c.cut > 0 && k >= c.cut {
+	if c.cut > 0 && k >= c.cut && (c.once == nil || c.once.CompareAndSwap(false, true)) {
 		return errors.New("injected transport failure")
+	}
+	if c.gate != nil && m.GetCode() == pb.SyncResponse_CONTINUE {
+		c.gate.pass(c.Context())
 	}
 	return c.ApiService_SyncServer.Send(m)
 }
@@ -114,12 +167,14 @@ type apiServer struct {
 	wait    usync.WaitCloser
 	sent    atomic.Int32
 	cut     int
+	once    *atomic.Bool
+	gate    *gate
 	mu      sync.Mutex
 	results []string
 }
 
 func (a *apiServer) Sync(req *pb.SyncRequest, stream pb.ApiService_SyncServer) error {
-	err := a.leader.Handle(a.wait, req, &cutStream{ApiService_SyncServer: stream, n: &a.sent, cut: a.cut})
+	err := a.leader.Handle(a.wait, req, &cutStream{ApiService_SyncServer: stream, n: &a.sent, cut: a.cut, once: a.once, gate: a.gate})
 	a.mu.Lock()
 	switch {
 	case err == nil:
@@ -247,9 +302,23 @@ func readBack(ch syncer.Channel, h int, as int) held {
 				}
 			}
 		}()
-		select {
-		case <-got:
-		case <-time.After(1500 * time.Millisecond):
+		// as long as bytes keep coming the read goes on; it is given up after 1.5 s without a byte
+		last, lastAt := -1, time.Now()
+	wait:
+		for {
+			select {
+			case <-got:
+				break wait
+			case <-time.After(2 * time.Millisecond):
+			}
+			mu.Lock()
+			k := len(buf)
+			mu.Unlock()
+			if k != last {
+				last, lastAt = k, time.Now()
+			} else if time.Since(lastAt) > 1500*time.Millisecond {
+				break
+			}
 		}
 		mu.Lock()
 		defer mu.Unlock()
@@ -367,6 +436,38 @@ func genScenario(r *hx.Rng, id int) *scenario {
 	}
 	if r.Chance(35) {
 		sc.interrupt = 2 + r.Intn(6)
+		sc.retry = r.Chance(25)
+	}
+	if r.Chance(7) {
+		// the leader goes through a full resynchronisation while this follower lags some MB behind: history 1 of about
+		// 3 MB, the follower's link stalls early, the leader's cache is reset and refilled under history 2 over a range
+		// that covers offsets the stalled transfer has still to send
+		sc.fkind = "switch"
+		sc.interrupt, sc.retry, sc.memoryId = 0, false, 0
+		ln := int64(2500000 + r.Intn(1200000))
+		sc.leader = cacheSpec{Hist: 1, Left: a, Right: a + ln}
+		sc.follower = cacheSpec{}
+		if r.Chance(50) {
+			sc.follower = cacheSpec{Hist: 1, Left: a, Right: a + int64(1+r.Intn(5000))}
+		}
+		sc.stallAt = sc.follower.Right - sc.follower.Left + int64(1+r.Intn(100000))
+		sc.appendN = 0
+		if r.Chance(50) {
+			sc.appendN = int64(1 + r.Intn(200000))
+		}
+		end := sc.leader.Right + sc.appendN
+		// the new history's snapshot offset: at, a little below, or well below the end of the old one
+		var l2 int64
+		switch r.Intn(3) {
+		case 0:
+			l2 = end
+		case 1:
+			l2 = end - int64(r.Intn(3000))
+		default:
+			l2 = a + 1000000 + int64(r.Intn(int(end-a-1000000)))
+		}
+		sc.leader2 = cacheSpec{Hist: 2, Left: l2, RdbLeft: l2, RdbSize: int64(20 + r.Intn(9000)), Right: l2 + int64(1+r.Intn(2600000))}
+		sc.append2 = int64(1 + r.Intn(9000))
 	}
 	if r.Chance(50) && sc.leader.Right > sc.leader.Left {
 		sc.appendN = int64(1 + r.Intn(9000))
@@ -454,7 +555,7 @@ func runDirect(sc *scenario, tr *hx.Trace, base string, r *hx.Rng) {
 
 func runScenario(sc *scenario, tr *hx.Trace, base string) {
 	logSize = 3000
-	if sc.fkind == "farbehind" {
+	if sc.fkind == "farbehind" || sc.fkind == "switch" {
 		logSize = 1 << 20
 	}
 	ldir := filepath.Join(base, fmt.Sprintf("l%d", sc.id))
@@ -475,10 +576,14 @@ func runScenario(sc *scenario, tr *hx.Trace, base string) {
 		fch.Close()
 		fch = newChannel(true, fdir)
 	}
-	leader := syncer.NewReplicaLeader(&fakeInput{runIds: []string{ids[1]}}, lch)
+	input := &fakeInput{runIds: []string{ids[1]}}
+	leader := syncer.NewReplicaLeader(input, lch)
 	leader.Start()
 	srvWait := usync.NewWaitCloser(nil)
-	api := &apiServer{leader: leader, wait: srvWait, cut: sc.interrupt}
+	api := &apiServer{leader: leader, wait: srvWait, cut: sc.interrupt, gate: &gate{}}
+	if sc.retry {
+		api.once = &atomic.Bool{}
+	}
 	ln, err := hx.Listen()
 	if err != nil {
 		hx.Fatal("%v", err)
@@ -495,6 +600,66 @@ func runScenario(sc *scenario, tr *hx.Trace, base string) {
 	deadline := time.Now().Add(1500 * time.Millisecond)
 	var runErr error
 	ended := false
+	caughtUp2 := false
+	retried := false
+	if sc.fkind == "switch" {
+		deadline = time.Now() // the loop below is not for this kind
+		// 1. the follower's link stalls once it holds stallAt bytes
+		waitFollower := func(id string, right int64, quiet time.Duration) bool {
+			last, lastAt := int64(-1), time.Now()
+			for {
+				_, fr := fch.GetOffsetRange(id)
+				if fr >= right {
+					return true
+				}
+				if fr != last {
+					last, lastAt = fr, time.Now()
+				}
+				if time.Since(lastAt) > quiet {
+					return false
+				}
+				select {
+				case runErr = <-done:
+					ended = true
+					return false
+				default:
+				}
+				time.Sleep(500 * time.Microsecond)
+			}
+		}
+		if !waitFollower(ids[1], sc.leader.Left+sc.stallAt, 20*time.Second) && !ended {
+			hx.Fatal("scenario %d: the follower did not reach offset %d of history 1", sc.id, sc.leader.Left+sc.stallAt)
+		}
+		api.gate.shut()
+		time.Sleep(30 * time.Millisecond) // the leader's reader runs ahead until its pipe is full
+		// 2. the source goes on writing, then the leader resynchronises in full under a new id
+		if sc.appendN > 0 {
+			lw.feed.Feed(aofData(1, leaderRight, leaderRight+sc.appendN))
+			leaderRight += sc.appendN
+			waitRange(lch, ids[1], leaderRight)
+		}
+		lw.feed.CloseWith(io.EOF)
+		lw.w.Close()
+		input.set(ids[2])
+		if err := lch.DelRunId(lch.RunId()); err != nil {
+			hx.Fatal("scenario %d: leader DelRunId: %v", sc.id, err)
+		}
+		lw = populate(lch, sc.leader2)
+		// 3. the link is back; the source writes a little more
+		api.gate.open()
+		right2 := sc.leader2.Right
+		if !ended {
+			// the follower retries 3 s after a failed round
+			caughtUp2 = waitFollower(ids[2], right2, 20*time.Second)
+		}
+		if lw != nil && caughtUp2 {
+			lw.feed.Feed(aofData(2, right2, right2+sc.append2))
+			right2 += sc.append2
+			waitRange(lch, ids[2], right2)
+			caughtUp2 = waitFollower(ids[2], right2, 20*time.Second)
+		}
+		sc.leader2.Right = right2
+	}
 	for time.Now().Before(deadline) && !ended {
 		select {
 		case runErr = <-done:
@@ -531,6 +696,11 @@ func runScenario(sc *scenario, tr *hx.Trace, base string) {
 		}
 		if fr >= leaderRight && (appended || sc.appendN == 0 || lw == nil) && sc.leader.Right > sc.leader.Left && calls >= needCalls && int(api.sent.Load()) >= 2 {
 			break
+		}
+		if sc.retry && api.once.Load() && !retried {
+			// the one transport failure has happened: the follower starts its next round 3 s later
+			retried = true
+			deadline = time.Now().Add(8 * time.Second)
 		}
 		time.Sleep(300 * time.Microsecond)
 	}
@@ -601,7 +771,7 @@ func runScenario(sc *scenario, tr *hx.Trace, base string) {
 		reopened = []held{}
 	}
 	tr.Emit(map[string]interface{}{"ev": "Replica", "id": sc.id, "disk": sc.disk, "leader": sc.leader, "follower": sc.follower, "fkind": sc.fkind,
-		"memoryId": sc.memoryId, "interrupt": sc.interrupt, "appended": leaderRight - sc.leader.Right, "leaderRight": leaderRight,
+		"memoryId": sc.memoryId, "interrupt": sc.interrupt, "retry": sc.retry, "retried": retried, "leader2": sc.leader2, "caughtUp2": caughtUp2, "appended": leaderRight - sc.leader.Right, "leaderRight": leaderRight,
 		"result": res, "runErr": fmt.Sprint(runErr), "leaderCalls": results, "calls": nCalls, "messages": int(api.sent.Load()), "caughtUp": caughtUp,
 		"held": heldNow, "reopened": reopened})
 }
@@ -633,7 +803,8 @@ func main() {
 		if s%*shards != *shard {
 			continue
 		}
-		r := hx.NewRng(*seed*15485863 + uint64(s))
+		// (scenario streams far apart in the generator's sequence: consecutive seeds would give streams shifted by one draw)
+		r := hx.NewRng(*seed*15485863 + uint64(s)*0x632BE59BD9B4E019)
 		sc := genScenario(r, s+1)
 		wd.Kick(fmt.Sprintf("scenario %d %s disk=%v", sc.id, sc.fkind, sc.disk))
 		if r.Chance(20) {
